@@ -695,7 +695,7 @@ def sarSteps (rid : Rid) (host : Str) (attrs : Attrs) (ch : Nat) (up : Option In
 between that filter and the authenticator / authorizer. Then the request's steps with `mid1` run when the closure calls `ClientFor`
 (between `tokLookup` and `tokReview`) and `mid2` run while the review is in flight (between `tokReview` and
 `tokFinish`); `Macro.sar … mid`: `mid` runs while the review is in flight. `mid` lists may contain whole nested
-requests. Every request is preceded by `tick 1` (a real clock never stands still between two requests). -/
+requests. Every call of the authenticator / authorizer is preceded by `tick 1` (a real clock never stands still between two calls). -/
 inductive Macro
   | ev (e : Ev)
   | tok (hostport tok : Str) (ch1 ch2 : Nat) (bound : Bool) (mid0 mid1 mid2 : List Macro)
@@ -715,12 +715,12 @@ mutual
     | .ev e => r.app env (.ev e)
     | .tok hostport tok ch1 ch2 bound mid0 mid1 mid2 =>
       let host := hostWithoutPort hostport
-      let r := r.app env (.ev (.tick 1))
       -- WithUpstreamInfo (only for `bound` requests): unknown host => 503, the request never reaches authentication
       if bound && (mgrGet r.s.mgr host).isNone then r
       else
         let up := if bound then mgrGet r.s.mgr host else none
         let r := runMacros env r mid0
+        let r := r.app env (.ev (.tick 1))
         let rid := r.s.nextRid
         let r := ((r.app env (.tokBegin rid host tok ch1 up)).app env (.tokCache rid)).app env (.tokLookup rid)
         if (findTok r.s rid).isNone then r
@@ -733,11 +733,11 @@ mutual
             r.app env (.tokFinish rid)
     | .sar hostport attrs ch bound mid0 mid =>
       let host := hostWithoutPort hostport
-      let r := r.app env (.ev (.tick 1))
       if bound && (mgrGet r.s.mgr host).isNone then r
       else
         let up := if bound then mgrGet r.s.mgr host else none
         let r := runMacros env r mid0
+        let r := r.app env (.ev (.tick 1))
         let rid := r.s.nextRid
         let r := ((r.app env (.sarBegin rid host attrs ch up)).app env (.sarCache rid)).app env (.sarLookup rid)
         if (findSar r.s rid).isNone then r
